@@ -143,7 +143,8 @@ func (c *Client) fetchMetadata(
 ) {
 	log.Debugf("consume: fetching object metadata %s", name)
 	args := ExpressRArgs{
-		Name: append(name,
+		// full slice expression: do not write into the caller's name
+		Name: append(name[:len(name):len(name)],
 			enc.NewStringComponent(enc.TypeKeywordNameComponent, "metadata"),
 		),
 		Config: &ndn.InterestConfig{
